@@ -192,12 +192,24 @@ func buildWorld(r *rng.R, small bool) *world {
 		"oa": func() *graphql.FieldDefinition {
 			return &graphql.FieldDefinition{Type: o1, Arguments: args("x", graphql.IntType)}
 		},
-		"query": func() *graphql.FieldDefinition { return &graphql.FieldDefinition{Type: o0} },
+		"query":  func() *graphql.FieldDefinition { return &graphql.FieldDefinition{Type: o0} },
 		"tagged": func() *graphql.FieldDefinition { return &graphql.FieldDefinition{Type: tagged} },
+		// nested list types with non-null at every level: item-to-list coercion is allowed for the
+		// value of an argument but not for the items of a list literal, whatever wrappers the item type has
+		"lists": func() *graphql.FieldDefinition {
+			I := graphql.IntType
+			return &graphql.FieldDefinition{Type: graphql.IntType, Arguments: args(
+				"g1", li(li(I)), "g2", li(nn(li(I))), "g3", li(li(nn(I))), "g4", li(nn(li(nn(I)))), "g5", nn(li(li(I))),
+				"g6", li(li(li(I))), "g7", li(nn(li(nn(li(I))))), "g8", dv(nn(li(nn(li(I)))), []interface{}{}))}
+		},
 		// interface fields with arguments / of composite type, for overlapping fields whose parents are
 		// an interface and an implementing object type
-		"nick":   func() *graphql.FieldDefinition { return &graphql.FieldDefinition{Type: graphql.StringType, Arguments: args("n", graphql.IntType)} },
-		"friend": func() *graphql.FieldDefinition { return &graphql.FieldDefinition{Type: named, Arguments: args("n", graphql.IntType)} },
+		"nick": func() *graphql.FieldDefinition {
+			return &graphql.FieldDefinition{Type: graphql.StringType, Arguments: args("n", graphql.IntType)}
+		},
+		"friend": func() *graphql.FieldDefinition {
+			return &graphql.FieldDefinition{Type: named, Arguments: args("n", graphql.IntType)}
+		},
 		"gif": func() *graphql.FieldDefinition {
 			return &graphql.FieldDefinition{Type: gi, RequiredFeatures: schema.NewFeatureSet("gate")}
 		},
@@ -232,7 +244,7 @@ func buildWorld(r *rng.R, small bool) *world {
 		}
 		return out
 	}
-	o0.Fields = mk(pick([]string{"i", "s", "arg", "req", "alpha", "oa", "named", "node", "ab", "cmp", "query", "tagged"}, "b", "dfl", "flt", "bgs", "gammas", "beta", "li", "col", "gi", "gobj", "cu", "gif", "gg")...)
+	o0.Fields = mk(pick([]string{"i", "s", "arg", "req", "alpha", "oa", "named", "node", "ab", "cmp", "query", "tagged", "lists"}, "b", "dfl", "flt", "bgs", "gammas", "beta", "li", "col", "gi", "gobj", "cu", "gif", "gg")...)
 	o1.Fields = mk(pick([]string{"name", "i", "id", "s", "beta", "arg", "oa", "nick", "friend"}, "req", "dfl", "ab", "query", "gammas", "col", "cmp", "gi")...)
 	o2.Fields = mk(pick([]string{"name", "i", "id", "alpha", "nick", "friend"}, "s", "arg", "li", "named", "bgs", "flt")...)
 	o3.Fields = mk(pick([]string{"id", "i", "b"}, "s", "alpha", "node", "cu", "query")...)
